@@ -293,3 +293,10 @@ package server
 //@   pure
 //@   ensures [C03,C19:dispatch] res1 == nil ==> (int(class) == 1 && int(method) == 6 && res0 == fnval("github.com/pion/turn/v5/internal/server.handleSendIndication")) || (int(class) == 0 && ((int(method) == 3 && res0 == fnval("github.com/pion/turn/v5/internal/server.handleAllocateRequest")) || (int(method) == 4 && res0 == fnval("github.com/pion/turn/v5/internal/server.handleRefreshRequest")) || (int(method) == 8 && res0 == fnval("github.com/pion/turn/v5/internal/server.handleCreatePermissionRequest")) || (int(method) == 9 && res0 == fnval("github.com/pion/turn/v5/internal/server.handleChannelBindRequest")) || (int(method) == 1 && res0 == fnval("github.com/pion/turn/v5/internal/server.handleBindingRequest")) || (int(method) == 10 && res0 == fnval("github.com/pion/turn/v5/internal/server.handleConnectRequest")) || (int(method) == 11 && res0 == fnval("github.com/pion/turn/v5/internal/server.handleConnectionBindRequest"))))
 //@   ensures [C03,C19:dispatch-known-only] res1 != nil ==> res0 == nil
+
+//@      // ---- C03: every nonce manager has its own key: 64 bytes drawn from crypto/rand (so a nonce minted by another
+//@      // instance, or computed offline, does not validate)
+//@ func NewShortNonceHash
+//@   inline-at-calls
+//@   at-call crypto/rand.Read assert [C03:instance-key-is-random] len(arg0) == shortNonceKeyLength && shortNonceKeyLength >= 32
+//@   ensures [C03:instance-key-is-random] res1 == nil ==> res0 != nil && typeis(res0, *ShortNonceHash) && len(res0.(*ShortNonceHash).key) == shortNonceKeyLength && 2 <= res0.(*ShortNonceHash).hmacLen && res0.(*ShortNonceHash).hmacLen <= 32
